@@ -8,6 +8,15 @@
 //! result (or its own panic payload) reaches its own submitter; the gauge
 //! never exceeds the pool's thread limit; after the idle timeout the workers
 //! have retired (thread census) and a later job still runs.
+//!
+//! Two further shapes: jobs handed to `AsyncifyPool::dispatch` directly that
+//! panic *inside the pool worker* (nothing catches them before the worker):
+//! afterwards the pool must not count threads that no longer exist (a
+//! dispatch that is refused while the thread census shows no pool thread is a
+//! leaked slot); and a `Dispatcher` built from a proactor builder that only
+//! sets `thread_pool_limit`: blocking work arriving through
+//! `Dispatcher::dispatch_blocking` and through `spawn_blocking` inside its
+//! worker runtimes at the same time must respect the one configured limit.
 
 use std::{
     collections::HashSet,
@@ -32,12 +41,17 @@ struct Prog {
     /// job body: 0 immediate, 1 spin 50us, 2 sleep 1ms, 3 panic
     bodies: Vec<u8>,
     idle_phase: bool,
+    /// jobs dispatched directly on the pool that panic inside the worker thread
+    direct_panics: usize,
+    /// run through a `Dispatcher` (default pool creation) instead of hand-built runtimes
+    dispatcher: bool,
 }
 
 impl Prog {
     fn to_json(&self) -> Value {
         json!({"driver": self.driver, "limit": self.limit, "idle_ms": self.idle_ms, "runtimes": self.runtimes,
-               "jobs": self.jobs, "bodies": self.bodies, "idle_phase": self.idle_phase})
+               "jobs": self.jobs, "bodies": self.bodies, "idle_phase": self.idle_phase,
+               "direct_panics": self.direct_panics, "dispatcher": self.dispatcher})
     }
 
     fn from_json(v: &Value) -> Option<Prog> {
@@ -49,20 +63,25 @@ impl Prog {
             jobs: v["jobs"].as_u64()? as usize,
             bodies: v["bodies"].as_array()?.iter().filter_map(|x| x.as_u64().map(|x| x as u8)).collect(),
             idle_phase: v["idle_phase"].as_bool().unwrap_or(false),
+            direct_panics: v["direct_panics"].as_u64().unwrap_or(0) as usize,
+            dispatcher: v["dispatcher"].as_bool().unwrap_or(false),
         })
     }
 }
 
 fn generate(rng: &mut Rng, driver: &'static str) -> Prog {
     let jobs = rng.range(1, 60);
+    let limit = rng.range(1, 8);
     Prog {
         driver,
-        limit: rng.range(1, 8),
+        limit,
         idle_ms: *rng.pick(&[5u64, 20, 50]),
         runtimes: rng.range(1, 4),
         jobs,
         bodies: (0..jobs).map(|_| *rng.pick(&[0u8, 0, 1, 1, 2, 3])).collect(),
         idle_phase: rng.chance(1, 3),
+        direct_panics: if rng.chance(1, 3) { rng.range(1, limit + 2) } else { 0 },
+        dispatcher: rng.chance(1, 4),
     }
 }
 
@@ -81,7 +100,114 @@ fn thread_count() -> usize {
     std::fs::read_dir("/proc/self/task").map(|d| d.count()).unwrap_or(0)
 }
 
+/// The gauge job every route runs.
+fn gauge_job(gauge: &Gauge, j: usize, body: u8) -> usize {
+    let now = gauge.running.fetch_add(1, Ordering::SeqCst) + 1;
+    gauge.max.fetch_max(now, Ordering::SeqCst);
+    gauge.threads.lock().unwrap().insert(tid());
+    gauge.runs.lock().unwrap()[j] += 1;
+    match body {
+        1 => {
+            let t = Instant::now();
+            while t.elapsed() < Duration::from_micros(50) {
+                std::hint::spin_loop();
+            }
+        }
+        _ => std::thread::sleep(Duration::from_millis(1)),
+    }
+    gauge.running.fetch_sub(1, Ordering::SeqCst);
+    j * 7 + 1
+}
+
+/// Blocking work through a `Dispatcher` whose pool is created by default from `thread_pool_limit`:
+/// `dispatch_blocking` and `spawn_blocking` inside the worker runtimes, all in flight together.
+fn run_dispatcher(p: &Prog) -> Result<(Vec<(String, String)>, String), String> {
+    use compio_dispatcher::Dispatcher;
+    use compio_driver::DispatchError;
+    let gauge = Arc::new(Gauge {
+        running: AtomicUsize::new(0),
+        max: AtomicUsize::new(0),
+        runs: Mutex::new(vec![0; p.jobs]),
+        threads: Mutex::new(HashSet::new()),
+    });
+    let mut pb = ProactorBuilder::new();
+    pb.driver_type(if p.driver == "poll" { DriverType::Poll } else { DriverType::IoUring });
+    pb.thread_pool_limit(p.limit);
+    pb.thread_pool_recv_timeout(Duration::from_millis(p.idle_ms));
+    let disp = Dispatcher::builder()
+        .worker_threads(std::num::NonZeroUsize::new(p.runtimes.max(1)).unwrap())
+        .proactor_builder(pb)
+        .build()
+        .map_err(|e| format!("dispatcher: {e}"))?;
+    let mut viol: Vec<(String, String)> = Vec::new();
+    let mut rxs = Vec::new();
+    let t0 = Instant::now();
+    for j in 0..p.jobs {
+        let body = if p.bodies[j] == 1 { 1 } else { 2 };
+        if j % 2 == 0 {
+            // through a worker runtime: spawn_blocking
+            let g = gauge.clone();
+            match disp.dispatch(move || async move {
+                match compio_runtime::spawn_blocking(move || gauge_job(&g, j, body)).await {
+                    Ok(v) => v,
+                    Err(_) => usize::MAX,
+                }
+            }) {
+                Ok(rx) => rxs.push((j, rx)),
+                Err(_) => return Err("dispatch refused".into()),
+            }
+        } else {
+            // directly on the dispatcher's pool; refused while saturated: try again
+            let g = gauge.clone();
+            let mut f = Some(move || gauge_job(&g, j, body));
+            loop {
+                match disp.dispatch_blocking(f.take().unwrap()) {
+                    Ok(rx) => {
+                        rxs.push((j, rx));
+                        break;
+                    }
+                    Err(DispatchError(back)) => f = Some(back),
+                }
+                if t0.elapsed() > Duration::from_secs(20) {
+                    return Err("dispatch_blocking refused for 20 s".into());
+                }
+                std::thread::yield_now();
+            }
+        }
+    }
+    let res = futures_executor::block_on(async {
+        let mut out = Vec::new();
+        for (j, rx) in rxs {
+            out.push((j, rx.await));
+        }
+        let _ = disp.join().await;
+        out
+    });
+    for (j, r) in res {
+        match r {
+            Ok(v) if v == j * 7 + 1 => {}
+            Ok(v) => viol.push(("C17/swapped-result/dispatcher".into(), format!("job {j} returned {v}, its own value is {}", j * 7 + 1))),
+            Err(_) => viol.push(("C17/job-lost/dispatcher".into(), format!("job {j}: result channel closed without a result"))),
+        }
+    }
+    for (j, n) in gauge.runs.lock().unwrap().iter().enumerate() {
+        if *n != 1 {
+            viol.push((format!("C17/ran-{}-times/dispatcher", if *n == 0 { "zero" } else { "several" }), format!("job {j} ran {n} times")));
+        }
+    }
+    let max = gauge.max.load(Ordering::SeqCst);
+    if max > p.limit {
+        viol.push((format!("C17/running-exceeds-limit/{}/dispatcher", p.driver),
+            format!("{max} blocking jobs were running at once (dispatch_blocking + spawn_blocking inside the workers) with thread_pool_limit {}", p.limit)));
+    }
+    let sat = if max >= p.limit { "saturated" } else { "below-limit" };
+    Ok((viol, format!("{}|limit{}|workers{}|{}|dispatcher", p.driver, p.limit, p.runtimes, sat)))
+}
+
 fn run_prog(p: &Prog) -> Result<(Vec<(String, String)>, String), String> {
+    if p.dispatcher {
+        return run_dispatcher(p);
+    }
     let pool = AsyncifyPool::new(p.limit, Duration::from_millis(p.idle_ms));
     let gauge = Arc::new(Gauge {
         running: AtomicUsize::new(0),
@@ -173,7 +299,73 @@ fn run_prog(p: &Prog) -> Result<(Vec<(String, String)>, String), String> {
     if max > p.limit {
         viol.push((format!("C17/running-exceeds-limit/{ctx}"), format!("{max} jobs were running at once with thread_limit {}", p.limit)));
     }
+    // jobs that panic inside the pool worker itself
+    for k in 0..p.direct_panics {
+        let mut f = Some(move || {
+            std::panic::panic_any(k + 2_000_000);
+        });
+        let t0 = Instant::now();
+        loop {
+            match pool.dispatch(f.take().unwrap()) {
+                Ok(()) => break,
+                Err(e) => f = Some(e.0),
+            }
+            if thread_count() <= threads_before && t0.elapsed() > Duration::from_millis(200) {
+                // refused although no pool thread exists: decided below
+                break;
+            }
+            if t0.elapsed() > Duration::from_secs(5) {
+                break;
+            }
+            std::thread::yield_now();
+        }
+    }
     let mut retired = "not-checked";
+    if p.direct_panics > 0 {
+        // once the census shows no pool thread, the pool must accept work again
+        let t0 = Instant::now();
+        while thread_count() > threads_before && t0.elapsed() < Duration::from_millis(p.idle_ms * 20 + 3000) {
+            std::thread::sleep(Duration::from_millis(2));
+        }
+        if thread_count() > threads_before {
+            return Err("pool threads did not exit after panicking jobs (census)".into());
+        }
+        let ran = Arc::new(AtomicUsize::new(0));
+        let mut refused = 0;
+        let mut accepted = false;
+        for _ in 0..50 {
+            let r2 = ran.clone();
+            match pool.dispatch(move || {
+                r2.fetch_add(1, Ordering::SeqCst);
+            }) {
+                Ok(()) => {
+                    accepted = true;
+                    break;
+                }
+                Err(_) => {
+                    refused += 1;
+                    if thread_count() > threads_before {
+                        // somebody else's thread appeared: the census is not ours alone
+                        return Err("thread census changed during the saturation check".into());
+                    }
+                    std::thread::sleep(Duration::from_millis(2));
+                }
+            }
+        }
+        if !accepted {
+            viol.push((format!("C17/slot-leaked-by-panicking-job/{ctx}"),
+                format!("after {} jobs panicked inside pool workers the pool refused {refused} dispatches in a row although no pool thread exists (thread census): \
+                         the slots of the dead workers were never given back", p.direct_panics)));
+        } else {
+            let t0 = Instant::now();
+            while ran.load(Ordering::SeqCst) == 0 && t0.elapsed() < Duration::from_secs(10) {
+                std::thread::sleep(Duration::from_millis(1));
+            }
+            if ran.load(Ordering::SeqCst) == 0 {
+                return Err("a job accepted after the panics did not run within 10 s".into());
+            }
+        }
+    }
     if p.idle_phase {
         // after the idle timeout the workers have retired (bounded wait, census only)
         let t0 = Instant::now();
@@ -214,7 +406,7 @@ fn run_prog(p: &Prog) -> Result<(Vec<(String, String)>, String), String> {
         }
     }
     let sat = if max >= p.limit { "saturated" } else { "below-limit" };
-    let sig = format!("{}|limit{}|rt{}|{}|{}|panic{}", p.driver, p.limit, p.runtimes, sat, retired, p.bodies.contains(&3) as u8);
+    let sig = format!("{}|limit{}|rt{}|{}|{}|panic{}|workerpanic{}", p.driver, p.limit, p.runtimes, sat, retired, p.bodies.contains(&3) as u8, (p.direct_panics > 0) as u8);
     Ok((viol, sig))
 }
 
